@@ -270,7 +270,9 @@ impl Configs {
             return;
         }
         let wit = case["witness"].as_str().unwrap_or("").to_string();
-        let mut fail = |ctx: &mut Ctx, rule: &str, locus: String, detail: String| ctx.fail(Failure { rule: rule.into(), witness: wit.clone(), locus: format!("{} | main={} mode={:?}", locus, mname, mode), detail, case: case.clone() });
+        // paths are shown relative to the scratch tree (its name holds the process id)
+        let root_text = tree.root.display().to_string();
+        let mut fail = |ctx: &mut Ctx, rule: &str, locus: String, detail: String| ctx.fail(Failure { rule: rule.into(), witness: wit.clone(), locus: format!("{} | main={} mode={:?}", locus, mname, mode).replace(&root_text, "<tree>"), detail: detail.replace(&root_text, "<tree>"), case: case.clone() });
         let dirs: Vec<PathBuf> = list.iter().map(|d| tree.root.join(DIRS[*d])).collect();
         // the effective list of the reference resolver
         let effective: Option<Vec<usize>> = match mode {
